@@ -29,7 +29,7 @@ RULE = (
     "non-trivial = a failing rule whose violating set is non-empty and unambiguous"
 )
 ASSUMPTIONS = [
-    "realizable architectures (leaf importers); pairwise unrelated subject/object identifiers",
+    "realizable architectures (leaf importers; package importers of unrelated modules in space N); pairwise unrelated subject/object identifiers plus the overlap and related-batch families",
     "where two readings of the documentation differ, must <= reported <= must+may is enforced instead of equality",
     "message grammar: '\"X\" imports \"Y\".', '\"X\" is imported by \"Y\".', '[Sub modules of ]\"S\" does|do not import|is|are not imported by [any module that is not ][a sub module of ]\"O\", ...'",
 ]
@@ -42,6 +42,8 @@ def plan(tier, seed):
             shards += [dict(s, naming=naming, bound=s["bound"] + " naming=" + naming) for s in plan_graph_shards("A", n_max=4, chunk=16)]
         shards += plan_graph_shards("B", n_max=5, n_min=5, k=2, parts=4)
         shards += plan_graph_shards("B", k=2, parts=8, with_ext=True, tree_list=list(trees(4)))
+        shards += plan_graph_shards("N", n_max=5, n_min=3, k=2, parts=2)
+        shards += [dict(s, phantom=True, bound=s["bound"] + " + imports of non-modules") for s in plan_graph_shards("A", n_max=4, chunk=16)]
     else:
         shards = plan_graph_shards("A", n_max=5, chunk=32)
         for naming in ("adversarial", "selfprefix", "unicode"):
@@ -49,6 +51,8 @@ def plan(tier, seed):
         shards += plan_graph_shards("B", n_max=6, n_min=6, k=3, parts=16)
         shards += plan_graph_shards("B", k=3, parts=16, with_ext=True, tree_list=list(trees(5)))
         shards += plan_graph_shards("B", k=2, parts=16, with_ext=True, tree_list=list(BIG_TREES))
+        shards += plan_graph_shards("N", n_max=6, n_min=3, k=3, parts=8)
+        shards += [dict(s, phantom=True, bound=s["bound"] + " + imports of non-modules") for s in plan_graph_shards("A", n_max=5, chunk=64)]
     return {
         "shards": shards,
         "require_nonzero": ["lines:imports", "lines:missing", "lines:missing-any", "query:get", "query:other-from", "query:other-on"],
@@ -182,26 +186,26 @@ def run_shard(shard, tier, seed):
     res = Result(shard["bound"])
     for ns, I in shard_graphs(shard, seed):
         ns, I = renamed_graph(ns, I, shard.get("naming", "identity"))
-        ev = build(ns, I, seed)
+        ev = build(ns, I, seed, phantom=shard.get("phantom", False))
         res.states += 1
         for spec in _specs(ns):
             res.transitions += 1
             res.evaluations += 1
             v = judge(ns, I, spec, ev, seed, res)
             if v:
-                res.violation(v[0], {"modules": ns, "imports": I, "rule": spec_to_json(spec), "seed": seed}, v[1], v[2])
+                res.violation(v[0], {"modules": ns, "imports": I, "rule": spec_to_json(spec), "seed": seed, "phantom": shard.get("phantom", False)}, v[1], v[2])
             elif len(res.samples) < 1 and I:
                 got = run_rule(mkrule(spec, seed), ev)
                 if got[0] == FAIL:
                     res.sample({"modules": ns, "imports": I, "rule": spec_to_json(spec), "message": got[1]})
         for q in query_checks(ns, I, _so(ns), ev, res):
-            res.violation(q[0], {"modules": ns, "imports": I, "query": {"subj": list(q[1]), "obj": list(q[2]), "sk": q[3], "ok": q[4]}, "seed": seed}, q[5], q[6])
+            res.violation(q[0], {"modules": ns, "imports": I, "query": {"subj": list(q[1]), "obj": list(q[2]), "sk": q[3], "ok": q[4]}, "seed": seed, "phantom": shard.get("phantom", False)}, q[5], q[6])
     return res
 
 
 def _check_case(case):
     ns, I = case["modules"], [tuple(e) for e in case["imports"]]
-    ev = build(ns, I, case.get("seed", 0))
+    ev = build(ns, I, case.get("seed", 0), phantom=case.get("phantom", False))
     if "rule" in case:
         return judge(ns, I, case["rule"], ev, case.get("seed", 0), None)
     q = case["query"]
